@@ -19,7 +19,7 @@ LEVEL_NOTE = "Trusted: Lean kernel + std axioms, harness, generators. Modelled: 
 TECHNIQUE = "Lean 4 proof (case analysis of the duplicate cache for arbitrary states) + differential histories at the interval boundary"
 DESIGN_REF = "§5 C10"
 project = WP.make_project(ID)
-relevant_verdict = WP.make_relevant(ID)
+relevant_verdict = WP.make_relevant(ID, also=("C14",))
 
 
 def build_one(exe, rng, idx):
@@ -69,8 +69,55 @@ def build_one(exe, rng, idx):
     return h.finish(kind="dup", dupint=dup)
 
 
+def build_udp(exe, rng, idx):
+    """the real udpserverrd thread on a loopback socket: associations by source address+port, 60 s expiry,
+    idle gaps before and between datagrams, unknown sources, length-field games"""
+    cfg = W.rand_cfg(rng, rewrites=False, ttl=False, nclients=2, nservers=1, types=[0])
+    dup = rng.choice([2, 5, 10, 30, 100])
+    for i, c in enumerate(cfg.clients):
+        c.update(dup=dup, dup_explicit=True, rwin=None, rwout=None, rwuser=None, reqma=False, reqmap=False)
+    cfg.clients[0]["host"] = "127.0.1.0/28"
+    cfg.clients[1]["host"] = "127.0.1.77"
+    cfg.servers[0].update(rwin=None, rwout=None)
+    cfg.realms = [dict(name=b"*", srv=[cfg.servers[0]["name"]], acc=None, msg=None, accresp=False)]
+    cfg.opts["verifyeap"] = 0
+    h = WH.Hist(exe, rng, cfg)
+    h.send("udplisten")
+    srcs = ["127.0.1.5", "127.0.1.5", "127.0.1.9", "127.0.1.77", "127.0.3.1"]
+    confof = [0, 0, 0, 1, None]
+    for sip in srcs:
+        h.send("udpnas " + sip)
+    last = {}
+    for step in range(rng.randrange(8, 26)):
+        if h.s.dead:
+            break
+        r = rng.random()
+        n = rng.randrange(len(srcs))
+        if r < 0.22:
+            h.send("tick %d" % rng.choice([1, 1, 2, dup - 1, dup, dup + 1, 29, 31, 59, 60, 61, 100]))
+            continue
+        conf = cfg.clients[confof[n]] if confof[n] is not None else cfg.clients[0]
+        if r < 0.55 and n in last:
+            pkt = last[n]
+            h.tag("dup")
+        else:
+            ident = rng.choice([1, 2, 250])
+            h.cl = [conf]
+            pkt = h.make_request(0, code=rng.choice([1, 1, 4]), user=b"u@x", ident=ident, extra=[], pwd=False)
+            if rng.random() < 0.1:
+                pkt = pkt + b"\x00" * rng.choice([1, 7])          # padded datagram: stripped
+            elif rng.random() < 0.05:
+                pkt = pkt[:-1]                                     # shorter than its length field: dropped
+            last[n] = pkt
+        out = h.send("udpsend %d %s" % (n, pkt.hex()))
+        if " fwd:" in out:
+            h.tag("forwarded")
+    return h.finish(kind="udp", dupint=dup)
+
+
 def gen_run(exe, rng, tier):
-    return WH.run_parallel(exe, rng, 150 if tier == "quick" else 4000, build_one)
+    return (WH.run_parallel(exe, rng, 150 if tier == "quick" else 4000, build_one) +
+            WH.run_parallel(exe, rng, 60 if tier == "quick" else 1500, build_udp, jobs=8))
 
 
 def gen(rng, tier):
